@@ -162,7 +162,7 @@ class SQLiteAlterTableSQLResult(AlterTableSQLResult):
 
                 field_values[new_column] = qn(old_column)
 
-        field_initials = []
+        column_initials = {}
 
         # If we have any new fields, add their defaults.
         if new_initial:
@@ -177,13 +177,22 @@ class SQLiteAlterTableSQLResult(AlterTableSQLResult):
                     if embed_initial:
                         field_values[column] = initial
                     else:
-                        field_initials.append(initial)
+                        column_initials[column] = initial
 
                         if column in field_values:
                             field_values[column] = \
                                 'coalesce(%s, %%s)' % qn(column)
                         else:
                             field_values[column] = '%s'
+
+        # The parameters must be in the same order as their placeholders,
+        # which is the order of the columns being copied, not the order in
+        # which the initial values were provided.
+        field_initials = [
+            column_initials[column]
+            for column in six.iterkeys(field_values)
+            if column in column_initials
+        ]
 
         # The SQLite documentation defines the steps that should be taken to
         # safely alter the schema for a table. Unlike most types of databases,
